@@ -149,6 +149,11 @@ func run06(c drv.Case, res *drv.Result) {
 	}
 	w.src, w.src2 = "op-src", "op-src2"
 	w.opTree = p.Tree.Tree()
+	const lastFile = "zzzz/last-file-with-unique-content"
+	if p.Sampled {
+		// the last file in upload order has a content of its own (its blob write is the target of a fault below)
+		w.opTree[lastFile] = gen.Bytes(p.Seed, "last-unique", 100)
+	}
 	base.MemConsumable(w.src, w.opTree)
 	if p.Op == "commit" {
 		d, err := base.CreateDiamond(nil, "r", "")
@@ -352,10 +357,125 @@ func run06(c drv.Case, res *drv.Result) {
 			}
 		}
 	}
+	// ---- store faults instead of crashes (uploads): one store call of the operation fails, the client carries on along
+	// its error path. Whatever it returns, a fresh client must only see complete bundles; when it returns nil its
+	// bundle must be visible.
+	faultEvals := 0
+	if p.Op == "upload" || p.Op == "upload-keys" {
+		runFaulted := func(label string, prepare func(a *memstore.Actor) func()) bool {
+			env := base.Clone()
+			a := memstore.NewActor("faulted")
+			finish := prepare(a)
+			before := committed(env)
+			done := make(chan error, 1)
+			var id string
+			go func() { i, err := runOp(p, w, env, a); id = i; done <- err }()
+			if finish != nil {
+				finish()
+			}
+			var err error
+			select {
+			case err = <-done:
+			case <-time.After(90 * time.Second):
+				res.Skipped = "faulted operation did not return within 90 s"
+				return false
+			}
+			faultEvals++
+			res.Stat("fault_points_enumerated", 1)
+			if a.FaultsInjected() == 0 {
+				res.Stat("fault_points_not_reached", 1)
+			}
+			after := committed(env)
+			if err == nil && a.FaultsInjected() > 0 {
+				res.Stat("operations_succeeding_despite_fault", 1)
+			}
+			if err == nil && (len(after) != len(before)+1 || !contains(after, id)) {
+				res.Violate("successful-upload-not-visible", label, "fault %s: Upload returned nil but its bundle %s is not among the committed bundles %v", label, id, after)
+				return false
+			}
+			if err != nil && len(after) != len(before) {
+				res.Stat("failed_uploads_leaving_a_visible_bundle", 1) // allowed only if complete: checked by the observer
+			}
+			return observe(env, "after-fault", label)
+		}
+		if !p.Sampled {
+			da2 := memstore.NewActor("dry2")
+			dry2 := base.Clone()
+			if _, err := runOp(p, w, dry2, da2); err == nil {
+				ncalls, _ := da2.Calls()
+				for i := 1; i <= ncalls; i++ {
+					i := i
+					ok := runFaulted(fmt.Sprintf("call-%d-fails", i), func(a *memstore.Actor) func() {
+						a.SetFault(func(c memstore.Call) error {
+							if c.Index == i {
+								res.Seen("faulted_call_kinds", c.Store+"."+c.Op)
+								return memstore.ErrInjected
+							}
+							return nil
+						})
+						return nil
+					})
+					if !ok {
+						return
+					}
+				}
+			}
+		} else {
+			// the blob write of the last file fails while the client is busy writing the first file list (held inside that
+			// store call until the fault has been delivered)
+			var lastKey string
+			for _, e := range dry.W.Log(seq0) {
+				if e.Actor == "dry" && e.Store == "blob" && e.Landed && e.Size == 100 {
+					lastKey = e.Key
+				}
+			}
+			// a tree of exactly 1000 files plus the last one: the first file list is written when only the last file is
+			// outstanding
+			exact := coreh.Tree{}
+			for i, pth := range w.opTree.Paths() {
+				if i < 1000 && pth != lastFile {
+					exact[pth] = w.opTree[pth]
+				}
+			}
+			exact[lastFile] = w.opTree[lastFile]
+			base.MemConsumable("op-src-exact", exact)
+			fullTree, fullSrc := w.opTree, w.src
+			w.opTree, w.src = exact, "op-src-exact"
+			defer func() { w.opTree, w.src = fullTree, fullSrc }()
+			for rep := 0; rep < 8 && lastKey != ""; rep++ {
+				ok := runFaulted("last-blob-write-fails-while-first-file-list-is-written", func(a *memstore.Actor) func() {
+					a.SetFault(func(c memstore.Call) error {
+						if c.Store == "blob" && c.Key == lastKey && (c.Op == "put" || c.Op == "putx") {
+							return memstore.ErrInjected
+						}
+						return nil
+					})
+					g := a.GateWhen(func(c memstore.Call) bool {
+						return c.Store == "meta" && strings.Contains(c.Key, "/bundle-files-0") && (c.Op == "put" || c.Op == "putx")
+					})
+					return func() {
+						select {
+						case <-g.Parked():
+							res.Stat("file_list_writes_held", 1)
+							for t := 0; t < 2500 && a.FaultsInjected() == 0; t++ {
+								time.Sleep(2 * time.Millisecond)
+							}
+							time.Sleep(20 * time.Millisecond)
+						case <-time.After(60 * time.Second):
+						}
+						g.Release()
+					}
+				})
+				if !ok {
+					return
+				}
+			}
+		}
+	}
 	res.Nontrivial = len(points) > 0
 	res.Canon = string(c.Params)
-	res.Evals = int64(2*len(points)) - 1
-	res.Distinct = int64(2*len(points)) - 1
+	res.Evals = int64(2*len(points)+faultEvals) - 1
+	res.Distinct = int64(2*len(points)+faultEvals) - 1
 	var sw []string
 	for i, x := range writes {
 		if i < 6 || i >= len(writes)-3 {
@@ -364,6 +484,15 @@ func run06(c drv.Case, res *drv.Result) {
 	}
 	res.Sample = map[string]interface{}{"op": p.Op, "prior_bundles": len(prior), "labels": p.Labels, "op_files": len(w.opTree), "store_writes": W, "crash_points": 2 * len(points), "writes": sw}
 	_ = context.Background
+}
+
+func contains(xs []string, x string) bool {
+	for _, y := range xs {
+		if y == x {
+			return true
+		}
+	}
+	return false
 }
 
 func clipKey(k string) string {
